@@ -689,6 +689,7 @@ type counters struct {
 	// the limit, cells of the Complexity() table compared, of them cells of non-first fields with a custom cost
 	nonFirst, nonFirstRej, nonFirstAdm, cells, cellsNonFirstCustom, cellsExtra int64
 	sampled                                                                    map[string]bool
+	tableSeen                                                                  map[string]bool // table violation keys already reported (one report per key)
 }
 
 func (k *counters) add(f func()) { k.mu.Lock(); f(); k.mu.Unlock() }
@@ -838,15 +839,29 @@ func judgeTable(c *vlib.Check, k *counters, binding string, cc *Conc, res *ur.C1
 			args = fmt.Sprintf("{x: %d}", pr.X)
 		}
 		call := fmt.Sprintf("[%s] Complexity(%q, %q, childComplexity=%d, args=%s) with the ComplexityRoot functions %s", binding, pr.Type, pr.Field, pr.Child, args, cj)
+		// one report per key: the same field fails in every row of the table, and the gate replay must get its share of the report
+		violate := func(key, detail string) {
+			first := false
+			k.add(func() {
+				if k.tableSeen == nil {
+					k.tableSeen = map[string]bool{}
+				}
+				first = !k.tableSeen[key]
+				k.tableSeen[key] = true
+			})
+			if first {
+				c.Violate(key, detail, replay)
+			}
+		}
 		switch {
 		case cell.Panic != "":
-			c.Violate("complexity-switch-panics", fmt.Sprintf("%s panicked: %s", call, cell.Panic), replay)
+			violate("complexity-switch-panics", fmt.Sprintf("%s panicked: %s", call, cell.Panic))
 		case exp.Ok && !cell.Ok:
-			c.Violate("custom-cost-ignored:"+pr.Type+"."+pr.Field, fmt.Sprintf("%s answers \"no custom cost\" (%d, false); a function is configured on the entry that serves this field, its value is %d", call, cell.V, exp.V), replay)
+			violate("custom-cost-ignored:"+pr.Type+"."+pr.Field, fmt.Sprintf("%s answers \"no custom cost\" (%d, false); a function is configured on the entry that serves this field, its value is %d", call, cell.V, exp.V))
 		case !exp.Ok && cell.Ok:
-			c.Violate("custom-cost-misattributed:"+pr.Type+"."+pr.Field, fmt.Sprintf("%s answers (%d, true); no function is configured on the entry that serves this field", call, cell.V), replay)
+			violate("custom-cost-misattributed:"+pr.Type+"."+pr.Field, fmt.Sprintf("%s answers (%d, true); no function is configured on the entry that serves this field", call, cell.V))
 		case exp.Ok && cell.V != exp.V:
-			c.Violate("custom-cost-differs:"+pr.Type+"."+pr.Field, fmt.Sprintf("%s answers %d, the configured function gives %d", call, cell.V, exp.V), replay)
+			violate("custom-cost-differs:"+pr.Type+"."+pr.Field, fmt.Sprintf("%s answers %d, the configured function gives %d", call, cell.V, exp.V))
 		}
 	}
 }
@@ -1317,23 +1332,12 @@ func main() {
 			break
 		}
 	}
-	pick(func(cc *Conc) bool {
-		return cc.Src == "gen" && strings.Contains(cc.Variant, "multi") && len(cc.Case.Vars) > 0
-	})
-	pick(func(cc *Conc) bool {
-		return cc.Src == "gen" && strings.Contains(cc.Shape, "node{") && len(cc.Case.Costs) == 2
-	})
-	pick(func(cc *Conc) bool {
-		return cc.Src == "gen" && strings.Contains(cc.Shape, "~") && strings.Contains(cc.CostCls, "neg")
-	})
+	// (vlib keeps the first six samples: the shared-entry cases come before the remaining picks of the gen corpus)
 	pick(func(cc *Conc) bool {
 		return cc.Src == "bind" && cc.NonFirst && strings.Contains(cc.Shape, "stock(x)") && strings.Contains(cc.CostCls, "argmul") && len(cc.Case.Costs) == 1
 	})
 	pick(func(cc *Conc) bool {
 		return cc.Src == "bind" && strings.Contains(cc.Shape, "~Sh{new_bar") && len(cc.Case.Costs) == 2 && len(cc.Case.Vars) > 0
-	})
-	pick(func(cc *Conc) bool {
-		return cc.Src == "bind" && strings.Contains(cc.Shape, "twoFoo,oldFoo") && strings.Contains(cc.CostCls, "mul")
 	})
 	for _, cc := range concs {
 		if cc.Src == "table" && len(cc.Case.Costs) == 1 {
@@ -1351,5 +1355,14 @@ func main() {
 			}
 		}
 	}
+	pick(func(cc *Conc) bool {
+		return cc.Src == "gen" && strings.Contains(cc.Variant, "multi") && len(cc.Case.Vars) > 0
+	})
+	pick(func(cc *Conc) bool {
+		return cc.Src == "gen" && strings.Contains(cc.Shape, "node{") && len(cc.Case.Costs) == 2
+	})
+	pick(func(cc *Conc) bool {
+		return cc.Src == "gen" && strings.Contains(cc.Shape, "~") && strings.Contains(cc.CostCls, "neg")
+	})
 	c.Finish()
 }
